@@ -16,6 +16,8 @@ pub mod c12;
 pub mod c13;
 pub mod c14;
 pub mod c15;
+#[cfg(all(feature = "sched", jmespath_rs_verif))]
+pub mod c16;
 pub mod c17;
 pub mod c18;
 
@@ -56,6 +58,11 @@ pub fn run(id: &str, tier: Tier) -> i32 {
         "C14" => c14::run(tier),
         "C15" => { bind_or_die(); c15::run(tier) }
         "C18" => c18::run(tier),
+        #[cfg(all(feature = "sched", jmespath_rs_verif))]
+        "C16" => {
+            let n = std::env::args().nth(3).and_then(|s| s.parse().ok()).unwrap_or(0);
+            c16::run(tier, n)
+        }
         _ => {
             eprintln!("unknown check {}", id);
             2
@@ -83,6 +90,8 @@ pub fn replay(id: &str, v: &Value) -> i32 {
         "C13" => c13::replay,
         "C14" => c14::replay,
         "C15" => c15::replay,
+        #[cfg(all(feature = "sched", jmespath_rs_verif))]
+        "C16" => c16::replay,
         "C17" => c17::replay,
         "C18" => c18::replay,
         _ => {
